@@ -78,6 +78,20 @@ CHECKS = {
              "via the stdlib's ln. translator/py2coq.py and its role signatures are trusted, validated here by evaluating its IR against the real functions. scipy.stats.chi2 and "
              "np.quantile are modelled/oracles, binary64 rounding is outside the theorems (rel. tolerance 1e-11).",
         ref="DESIGN.md section 4 / C15"),
+    "C18": dict(
+        technique="Coq proof (placement / validation theorems for any number type) + bit-exact model-vs-code correspondence with the binary64 (PrimFloat) instance",
+        text="Theorems in coq/Properties/C18.v, for ANY number type and affine map: output shape n x p; sequential in-place application of pairwise disjoint segments gives, "
+             "row by row, affine(mean_k, var_k, Z_i) inside the k-th requested segment / anomaly and Z_i elsewhere; consecutive changepoint segments are disjoint and cover [0,n); "
+             "alternating data has changepoints at the multiples of the segment length with the changed parameters on the first n_affected columns of odd segments; the generators "
+             "return Err exactly for the listed inconsistent arguments (counts, positions past the end, negative positions, empty / inverted / non-pair anomalies, non-broadcastable "
+             "vectors); outliers are added to exactly the listed rows, once each, and evenly spaced position lists are distinct, start at row 0, end at row n-1 and number k. "
+             "Determinism holds by construction (the model is a function of its arguments and Z). Tie: the real generators are run on random and invalid argument sets; the binary64 "
+             "instance of the model, fed the generator's own standard-normal output for the same seed, must equal the output bit for bit (decided in Coq with primitive floats); "
+             "model Err <-> ValueError; repeated calls, frame shape, index and column names are checked.",
+        note=BASE_TB + "Primitive floats (PrimFloat add / mul / sqrt, IEEE binary64) are part of the kernel's trusted computation here; no axioms ('Closed under the global context'). "
+             "scipy's multivariate_normal.rvs supplies Z; np.linspace's float front end and np.round (n_affected) are oracles recomputed with the library's expressions and checked "
+             "against positions_ok. Calls without any anomaly are outside the domain (p is derived from the first mean).",
+        ref="DESIGN.md section 4 / C18"),
     "C13": dict(
         technique="Coq proof (characterisation of the accepted cuts) + exhaustive small-box correspondence against the real evaluate",
         text="Theorems in coq/Properties/C13.v: the model of evaluate's validation returns scores iff the argument is an integer array of "
